@@ -927,6 +927,35 @@ func ruleStatusWriters(r *core.Reporter) {
 		})
 	}
 	_ = states
+	// R-STATUS-TARGET: which node a stage may touch. The fetch goroutine and postprocessItem own exactly the item
+	// they were given; preprocess/seencheck own the elements of the work list (and preprocess the seed, for Completed only).
+	for _, fn := range p.ModFuncs {
+		pk := core.RelPkg(core.FuncPkg(fn))
+		if pk != rel(pkgArch) && pk != rel(pkgPost) && pk != rel(pkgPre) && pk != rel(pkgSeen) {
+			continue
+		}
+		allInstrs(fn, func(in ssa.Instruction) {
+			recv, v, ok := setStatusConst(in)
+			if !ok {
+				return
+			}
+			isElem := func(x ssa.Value) bool { _, _, e := elemLoad(x); return e }
+			par := resolveParam(recv, 0)
+			okT := false
+			switch pk {
+			case rel(pkgArch), rel(pkgPost):
+				// must be the function's own *Item parameter (not a captured outer seed)
+				okT = par != nil && par.Parent() == fn
+			case rel(pkgPre):
+				okT = isElem(recv) || (par != nil && v == states["ItemCompleted"])
+			case rel(pkgSeen):
+				okT = isElem(recv)
+			}
+			if !okT {
+				r.Violated("SetStatus-target/"+core.FuncName(fn), p.InstrPos(in), "SetStatus(%s) is applied to %s, which is not the node this code is working on (e.g. the whole seed instead of the fetched item): other nodes of the tree keep pending work while the seed looks terminal", byVal[v], ir.Path(recv))
+			}
+		})
+	}
 	for pk, m := range perPkg {
 		r.Held("SetStatus/"+pk, sumInt(m), "states written: %v", keysInt(m))
 	}
